@@ -57,3 +57,35 @@ void vp_call_AsymVerifyInit(void) { vp_rv = vp_verify(); }
 void h_sign(void) { HAV(); vp_call_AsymSignInit(); VP_COVER(vp_rv == CKR_OK && M == CKM_RSA_PKCS); VP_COVER(vp_rv == CKR_OK && M == CKM_SHA256_RSA_PKCS_PSS); VP_COVER(vp_rv == CKR_OK && M == CKM_ECDSA);
   VP_COVER(vp_rv == CKR_OK && M == CKM_EDDSA && OBJB(0, ALWAYS_AUTHENTICATE) == 2); VP_COVER(vp_rv == CKR_OK && M == CKM_DSA_SHA1); VP_COVER(vp_rv == CKR_KEY_FUNCTION_NOT_PERMITTED); }
 void h_verify(void) { HAV(); vp_call_AsymVerifyInit(); VP_COVER(vp_rv == CKR_OK && M == CKM_RSA_PKCS); VP_COVER(vp_rv == CKR_OK && M == CKM_ECDSA); VP_COVER(vp_rv == CKR_OK && M == CKM_DSA); VP_COVER(vp_rv == CKR_MECHANISM_INVALID); }
+
+/* ---- AsymEncryptInit / AsymDecryptInit, whole functions: only the three RSA encryption mechanisms, only CKK_RSA keys; the
+ * session records the mechanism named; single-part only; decryption with an ALWAYS_AUTHENTICATE key arms re-authentication.
+ * (Key CLASS is not part of these clauses: neither function tests it, and no object of the wrong class can carry the usage
+ * flag - P11 public key objects have no CKA_DECRYPT, private key objects no CKA_ENCRYPT.) */
+#define M_RSA_CRYPT (M == CKM_RSA_PKCS || M == CKM_RSA_X_509 || M == CKM_RSA_PKCS_OAEP)
+/* AsymMech: RSA 1, RSA_PKCS 3, RSA_PKCS_OAEP 4 */
+#define MECH_OF (M == CKM_RSA_PKCS ? 3 : M == CKM_RSA_X_509 ? 1 : 4)
+#define K_ASYM_CRYPT(OPCODE, FLAG) \
+  __CPROVER_requires(VP_FRESH_GHOST && !(TOK(SO) && TOK(USER)) && (!TOK(SO) || SES(RW)) && SES(HOBJ0) != SES(HOBJ1) && SES(OPTYPE) <= 0x10 && SES(HARG0) == SES(HOBJ0)) \
+  __CPROVER_requires(OUT(getalgo_n) == 0 && OUT(getkey_n) == 0 && OUT(init_n) == 0 && OUT(set_n) == 0 && OUT(set_mech) == 0) \
+  __CPROVER_ensures((RV == CKR_OK) ==> (STARTED && SFX(SETOPTYPE_LAST) == (OPCODE) && OBJB(0, FLAG) == 2 && SES(MECH_PERMITTED) && M_RSA_CRYPT && KT == CKK_RSA && \
+                                       OUT(set_mech) == MECH_OF && OUT(set_single) && !OUT(set_multi) && OUT(getalgo_kind) == 1 /* AsymAlgo::RSA */)) \
+  __CPROVER_ensures((OUT(getkey_n) > 0) ==> (OUT(getkey_n) == 1 && OUT(getkey_kind) == 1 && KT == CKK_RSA && M_RSA_CRYPT)) \
+  __CPROVER_ensures((RV != CKR_OK) ==> NOT_STARTED) \
+  __CPROVER_ensures((SES(OPTYPE) != 0 && SES(INIT) && SES(VALID) && !SES(MECH_NULL) && !SES(TOKEN_NULL)) ==> (RV == CKR_OPERATION_ACTIVE)) \
+  __CPROVER_ensures((OBJB(0, PRIVATE) == 2 && !VP_SES_USER) ==> (RV != CKR_OK && OUT(getkey_n) == 0)) \
+  __CPROVER_ensures(SFX(SETOPTYPE_N) <= 1 && CNT(SET) == 0) \
+  __CPROVER_assigns(__CPROVER_object_whole(vp_out), VP_SOFTHSM_FRAME)
+CK_RV vp_encinit(void)
+K_ASYM_CRYPT(2, ENCRYPT)
+/* OAEP parameters are checked by MechParamCheckRSAPKCSOAEP before anything is loaded */
+__CPROVER_ensures((M == CKM_RSA_PKCS_OAEP && SES(OAEP_RV) != CKR_OK) ==> (RV != CKR_OK && OUT(getkey_n) == 0));
+CK_RV vp_decinit(void)
+K_ASYM_CRYPT(3, DECRYPT)
+/* OAEP: only SHA-1 / MGF1-SHA1 parameters of the full parameter size */
+__CPROVER_ensures((RV == CKR_OK && M == CKM_RSA_PKCS_OAEP) ==> (!SES(MECH_PARAM_NULL) && SES(MECH_PARAM_LEN) == sizeof(CK_RSA_PKCS_OAEP_PARAMS)))
+__CPROVER_ensures((RV == CKR_OK && OBJB(0, ALWAYS_AUTHENTICATE) == 2) ==> (SFX(SETREAUTH_N) == 1 && SFX(SETREAUTH_LAST) == 1));
+void vp_call_AsymEncryptInit(void) { vp_rv = vp_encinit(); }
+void vp_call_AsymDecryptInit(void) { vp_rv = vp_decinit(); }
+void h_encinit(void) { HAV(); vp_call_AsymEncryptInit(); VP_COVER(vp_rv == CKR_OK && M == CKM_RSA_PKCS_OAEP); VP_COVER(vp_rv == CKR_OK && M == CKM_RSA_X_509); VP_COVER(vp_rv == CKR_KEY_TYPE_INCONSISTENT); VP_COVER(vp_rv == CKR_GENERAL_ERROR); }
+void h_decinit(void) { HAV(); vp_call_AsymDecryptInit(); VP_COVER(vp_rv == CKR_OK && M == CKM_RSA_PKCS_OAEP); VP_COVER(vp_rv == CKR_OK && M == CKM_RSA_PKCS && OBJB(0, ALWAYS_AUTHENTICATE) == 2); VP_COVER(vp_rv == CKR_KEY_TYPE_INCONSISTENT); VP_COVER(vp_rv == CKR_ARGUMENTS_BAD); }
